@@ -1,42 +1,57 @@
-import SemVerif.Wire
+import SemVerif.Spec.Preds
 open SemVerif
 
-/-- first index at which two strings differ -/
-def firstDiff (a b : String) : Nat :=
-  let rec go : List Char → List Char → Nat → Nat
-    | x :: xs, y :: ys, n => if x = y then go xs ys (n + 1) else n
-    | _, _, n => n
-  go a.toList b.toList 0
+/-- (tags on a result, projection of a result) for one property -/
+def evalProp (prop : String) (p : Program) (r : Result) (linksOk : Bool) : List String × String :=
+  match prop with
+  | "C01" => (P_C01 p r, pi_verdict r)
+  | "C02" => (P_C02 p r, pi_verdict r)
+  | "C08" => (P_C08g p r, pi_stacks (fun i => i.writes.isSome || !i.reads.isEmpty) r)
+  | "C09" => (P_C09 r, pi_C09 r)
+  | "C10" => (P_C10 p r, pi_stacks isLabelInstr r)
+  | "C11" => (P_C11g p r, pi_stacks isReturnInstr r)
+  | "C12" => (P_C12 r, pi_stacks isValueInstr r)
+  | "C13" => (P_C13 p r, if r.panic.isSome then "panic" else "ok")
+  | "C14" => (P_C14 p r, pi_firstError r)
+  | "C18" => (if r.panic.isSome then [] else P_C18_shape p r linksOk, pi_C18 r)
+  | _ => (["unknown-property"], "")
 
-partial def loop (h : IO.FS.Stream) (n ne bad : Nat) (curP : Option Program) (hdr : String) : IO (Nat × Nat × Nat) := do
+def features (p : Program) (r : Result) : String :=
+  let n := (r.roots.map fun b => b.context.length).sum
+  s!"{pi_verdict r},wf={WellFormedB p},loopok={LoopOKB p},fns={p.fnDecls.length},instrs={n},errs={r.errors.length}"
+
+partial def loop (prop : String) (h : IO.FS.Stream) (idx : Nat) (curP : Option Program) (hdr : String) : IO Unit := do
   let line ← h.getLine
-  if line.isEmpty then return (n, ne, bad)
+  if line.isEmpty then return ()
   let line := line.trimAsciiEnd.toString
   if line.startsWith "G " then
-    loop h n ne bad none line
+    loop prop h idx none line
   else if line.startsWith "P " then
     match Sexp.parse (line.drop 2).toString >>= decProgram with
-    | some p => loop h n ne bad (some p) hdr
-    | none => IO.println s!"BADPROG {hdr}"; loop h n ne (bad + 1) none hdr
+    | some p => loop prop h idx (some p) hdr
+    | none => IO.println s!"CASE\t{idx}\t{hdr}\tBADPROG"; loop prop h (idx + 1) none hdr
   else if line.startsWith "D " then
     match curP with
-    | none => loop h n ne bad none hdr
+    | none => loop prop h idx none hdr
     | some p =>
-      let impl := (line.drop 2).toString
-      let model := printResult (run p)
-      if impl == model then loop h (n + 1) ne bad none hdr
-      else
-        let k := firstDiff impl model
-        IO.println s!"NE {hdr} at {k}"
-        IO.println s!"  impl : {(impl.drop (k - 60)).take 200}"
-        IO.println s!"  model: {(model.drop (k - 60)).take 200}"
-        loop h (n + 1) (ne + 1) bad none hdr
-  else loop h n ne bad curP hdr
+      let implTxt := (line.drop 2).toString
+      match Sexp.parse implTxt >>= decDump with
+      | none => IO.println s!"CASE\t{idx}\t{hdr}\tBADDUMP"; loop prop h (idx + 1) none hdr
+      | some (ri, linksOk) =>
+        let rm := run p
+        let full := implTxt == printResult rm
+        let (ti, pii) := evalProp prop p ri linksOk
+        let (tm, pim) := evalProp prop p rm true
+        IO.println s!"CASE\t{idx}\t{hdr}\t{if pii == pim then 1 else 0}\t{";".intercalate ti}\t{";".intercalate tm}\t{if full then 1 else 0}\t{features p ri}"
+        loop prop h (idx + 1) none hdr
+  else loop prop h idx curP hdr
 
 def main (args : List String) : IO UInt32 := do
-  let h ← match args with
-    | [f] => do let hd ← IO.FS.Handle.mk f .read; pure (IO.FS.Stream.ofHandle hd)
-    | _ => IO.getStdin
-  let (n, ne, bad) ← loop h 0 0 0 none ""
-  IO.println s!"cases={n} differ={ne} badprog={bad}"
-  return (if ne + bad = 0 then 0 else 1)
+  match args with
+  | [prop, f] =>
+    let hd ← IO.FS.Handle.mk f .read
+    loop prop (IO.FS.Stream.ofHandle hd) 0 none ""
+    return 0
+  | _ =>
+    IO.eprintln "usage: driver <Cxx> <cases-file>"
+    return 2
